@@ -267,12 +267,13 @@ def build(tier, seed):
         obs.append(Ob(f"C01.sim[{kind}]", "proof", [WS + ":BaseWavefunctionSimulator.get_wavefunction", SS + ":SymbolicSimulator._get_wavefunction_from_native_circuit",
                                                      C + ":split_circuit", WO + ":MultiPhaseOperation.apply"], sim_ob(kind),
                       f"{kind} simulator: final state of a 3-qubit circuit of generic gates with phase-only operations interleaved equals the ordered product "
-                      f"applied to a generic / the default initial state", timeout=300))
+                      f"applied to a generic / the default initial state", timeout=300,
+                      fallback=vprop.enum_ob("x", [], lambda: [2, 4], _check_native, "").run))
 
     # ---- all circuit lengths / widths: structure of to_unitary and concatenation over the abstract gate model (Engine V)
     from vfw import cmodel, vcontract as vc
     cs = cmodel.contracts()
-    fbn = vprop.enum_ob("x", [], lambda: range(3), _check_native, "").run
+    fbn = vprop.enum_ob("x", [], lambda: range(5), _check_native, "").run
 
     def setup_self(args, ns):
         args["self"] = cmodel.mk_circuit(ns, "self")
@@ -289,9 +290,10 @@ def build(tier, seed):
     obs.append(vprop.fn_ob("C01", cs["append"], {}, call=lambda ns, a: ns["_append_circuit"](a["other"], a["circuit"]), setup=setup_two, overrides=cmodel.overrides(), fallback=fbn,
                            obid="C01.append_circuit.all_lengths.contract", timeout_ms=30000,
                            desc="for circuits of ANY length: c1 + c2 has the operations of c1 followed by those of c2 and the larger register width"))
-    obs.append(vprop.enum_ob("C01.native.enum", FNL + FNC, lambda: range(3), _check_native,
+    obs.append(vprop.enum_ob("C01.native.enum", FNL + FNC, lambda: range(5), _check_native,
                              "bounded: native numeric path - random gates on random placements vs the element-wise definition (n<=5, arity<=4), built-in circuits incl. H, "
-                             "the same wrapped gates with equal parameters used twice in one process, SymbolicSimulator vs to_unitary", exhaustive=False, timeout=600))
+                             "the same wrapped gates with equal parameters used twice in one process, SymbolicSimulator vs to_unitary; concatenation of all pairs from a pool incl. operation-less "
+                             "circuits with declared widths; explicit complex initial states reused across calls", exhaustive=False, timeout=600))
     return obs
 
 
@@ -338,6 +340,62 @@ def _check_native(mode):
                     v = rng.normal(size=2 ** n) + 1j * rng.normal(size=2 ** n)
                     if not np.allclose(np.array(g(*qs).apply(v), dtype=complex).ravel(), embed(mats(g), qs, n) @ v, atol=1e-9):
                         return False, f"{g} on {qs}: apply differs from the embedding"
+        return True, "ok"
+    if mode == 3:
+        # concatenation keeps the operations in order and the larger width, also when an operand has no operations but a declared width;
+        # the matrix of the sum is the product (second operand applied last) on that width
+        pool = [[], [X(0)], [CNOT(0, 1), T(1)], [RX(0.4)(2)]]
+        for ops1, ops2 in itertools.product(pool, repeat=2):
+            for e1, e2 in itertools.product((0, 1, 2), repeat=2):
+                w1 = max([q for o in ops1 for q in o.qubit_indices], default=-1) + 1 + e1
+                w2 = max([q for o in ops2 for q in o.qubit_indices], default=-1) + 1 + e2
+                c1, c2 = Circuit(ops1, n_qubits=w1), Circuit(ops2, n_qubits=w2)
+                s_ = c1 + c2
+                if s_.n_qubits != max(w1, w2) or list(s_.operations) != list(ops1) + list(ops2):
+                    return False, f"Circuit({len(ops1)} ops, n_qubits={w1}) + Circuit({len(ops2)} ops, n_qubits={w2}): width {s_.n_qubits} (expected {max(w1, w2)}), {len(s_.operations)} operations"
+                if c1.n_qubits != w1 or c2.n_qubits != w2 or list(c1.operations) != list(ops1) or list(c2.operations) != list(ops2):
+                    return False, "an operand of + was modified"
+                n = max(w1, w2)
+                if 0 < n <= 4:
+                    W = np.eye(2 ** n, dtype=complex)
+                    for op in list(ops1) + list(ops2):
+                        W = embed(np.array(op.gate.matrix.tolist(), dtype=complex), op.qubit_indices, n) @ W
+                    U = np.array(s_.to_unitary(), dtype=complex)
+                    if U.shape != W.shape or not np.allclose(U, W, atol=1e-9):
+                        return False, f"to_unitary of Circuit(n_qubits={w1}) + Circuit(n_qubits={w2}) has shape {U.shape}, expected the product on {n} qubits"
+                for op in ops2[:1]:
+                    s2 = c1 + op
+                    if list(s2.operations) != list(ops1) + [op] or s2.n_qubits != max(w1, max(op.qubit_indices) + 1):
+                        return False, "circuit + operation"
+        return True, "ok"
+    if mode == 4:
+        # simulators: an explicit initial state (complex ndarray) is not modified and the same call twice gives the same state,
+        # whatever kind of operation comes first (phase-only operation, diagonal gate, ordinary gate)
+        from orquestra.quantum.circuits import MultiPhaseOperation, RZ, S
+        firsts = [MultiPhaseOperation(tuple(0.1 * (i + 1) for i in range(8))), T(1), RZ(0.7)(2), S(0), Z(0), H(0), X(2)]
+        for first in firsts:
+            c = Circuit([first, H(0), CNOT(0, 2), RX(0.4)(1)], n_qubits=3)
+            for dtype in (complex, np.complex128):
+                v0 = (rng.normal(size=8) + 1j * rng.normal(size=8)).astype(dtype)
+                v0 /= np.linalg.norm(v0)
+                keep = v0.copy()
+                a1 = np.array(SymbolicSimulator().get_wavefunction(c, initial_state=v0).amplitudes, dtype=complex)
+                if not np.array_equal(v0, keep):
+                    return False, f"get_wavefunction modified the caller's initial state (first operation {first})"
+                a2 = np.array(SymbolicSimulator().get_wavefunction(c, initial_state=v0).amplitudes, dtype=complex)
+                W = np.eye(8, dtype=complex)
+                for op in c.operations:
+                    if hasattr(op, "gate"):
+                        W = embed(np.array(op.gate.matrix.tolist(), dtype=complex), op.qubit_indices, 3) @ W
+                    else:
+                        W = np.diag(np.exp(1j * np.array(op.params, dtype=float))) @ W
+                if not np.allclose(a1, W @ keep, atol=1e-9) or not np.allclose(a2, a1, atol=1e-12):
+                    return False, f"state from an explicit initial state differs from the ordered product / between two identical calls (first operation {first})"
+                for op in c.operations:
+                    w0 = keep.copy()
+                    op.apply(w0)
+                    if not np.array_equal(w0, keep):
+                        return False, f"{op}.apply modified the vector it was given"
         return True, "ok"
     c = Circuit([H(0), CNOT(0, 2), RX(0.4)(1), SWAP(2, 1), T(0), CNOT(2, 0)], n_qubits=4)
     U = np.array(c.to_unitary(), dtype=complex)
